@@ -64,6 +64,10 @@ fn append_custom(wasm: &mut Vec<u8>, name: &str, data: &[u8]) {
 /// so the rows are written against a second file entry (`DW_LNS_set_file 2`) and the operand is patched; the patched program is re-read with
 /// gimli's reader and must have the same rows, all naming file 0.
 pub static ROWS_NAME_FILE0: std::sync::atomic::AtomicBool = std::sync::atomic::AtomicBool::new(false);
+/// file table layout: clang's (file 1 is a copy of the primary file) or a table without such a copy (DWARF 5: 0 = unit.c, 1.. = headers)
+pub static CLANG_FILE_LAYOUT: std::sync::atomic::AtomicBool = std::sync::atomic::AtomicBool::new(true);
+/// what the input says about files: line -> name of the file its row names; function -> name of the file of its DW_AT_decl_file
+pub static FILE_EXPECT: std::sync::Mutex<(BTreeMap<u64, String>, BTreeMap<String, String>)> = std::sync::Mutex::new((BTreeMap::new(), BTreeMap::new()));
 
 fn rows_of(debug_line: &[u8], debug_line_str: &[u8], debug_str: &[u8], addr_size: u8) -> Result<Vec<(u64, u64, u64, bool)>> {
     let dl = gimli::DebugLine::new(debug_line, LittleEndian);
@@ -86,9 +90,24 @@ pub fn attach(mut wasm: Vec<u8>, l: &Layout, version: u16, spanning: bool, lowpc
     let mut program = LineProgram::new(encoding, LineEncoding::default(), comp_dir, comp_file.clone(), None);
     let dir = program.default_directory();
     let file0 = version >= 5 && ROWS_NAME_FILE0.load(std::sync::atomic::Ordering::SeqCst);
-    // (with gimli's writer this is file 1 in both versions; in version 5 file 0 is the primary file written from `comp_file`)
-    let file1 = program.add_file(comp_file, dir, None);
-    let file = if file0 { program.add_file(LineString::String(b"second.c".to_vec()), dir, None) } else { file1 };
+    // (with gimli's writer the first added file is file 1 in both versions; in version 5 file 0 is the primary file written from `comp_file`)
+    let clang = CLANG_FILE_LAYOUT.load(std::sync::atomic::Ordering::SeqCst);
+    // base file of the rows: the primary file -- as file 1 (its copy, clang layout), as `unit_again.c` (no copy in the table), or, in the
+    // file-0 mode, a placeholder entry whose number is patched to 0 below
+    let mut table: Vec<(gimli::write::FileId, &str)> = vec![];
+    let base = if file0 {
+        // (the placeholder must not be file 1: the file register starts at 1, so rows naming file 1 carry no DW_LNS_set_file to patch)
+        if clang { table.push((program.add_file(comp_file.clone(), dir, None), "unit.c")); } else { table.push((program.add_file(LineString::String(b"a.h".to_vec()), dir, None), "a.h")); }
+        let f = program.add_file(LineString::String(b"placeholder.c".to_vec()), dir, None); table.push((f, "unit.c")); f
+    } else if clang { let f = program.add_file(comp_file.clone(), dir, None); table.push((f, "unit.c")); f }
+    else { let f = program.add_file(LineString::String(b"a.h".to_vec()), dir, None); table.push((f, "a.h")); f };
+    let base_name = table.last().unwrap().1;
+    let placeholder_raw: u8 = table.len() as u8;   // the writer numbers added files 1, 2, ...
+    let hb = program.add_file(LineString::String(b"b.h".to_vec()), dir, None);
+    let hc = program.add_file(LineString::String(b"c.h".to_vec()), dir, None);
+    let file_of = |line: u64| -> (gimli::write::FileId, &str) { match line % 3 { 1 => (hb, "b.h"), 2 => (hc, "c.h"), _ => (base, base_name) } };
+    let mut row_files: BTreeMap<u64, String> = BTreeMap::new();
+    let mut decl_files: BTreeMap<String, String> = BTreeMap::new();
     let mut lines = BTreeMap::new();
     let mut next_line = 1u64;
     // functions in input address order
@@ -99,7 +118,7 @@ pub fn attach(mut wasm: Vec<u8>, l: &Layout, version: u16, spanning: bool, lowpc
         program.begin_sequence(Some(Address::Constant(first)));
         for name in &order {
             for (off, op) in &l.instrs[*name] {
-                program.row().address_offset = off - first; program.row().file = file; program.row().line = next_line; program.generate_row();
+                program.row().address_offset = off - first; program.row().file = file_of(next_line).0; row_files.insert(next_line, file_of(next_line).1.to_string()); program.row().line = next_line; program.generate_row();
                 lines.insert(next_line, ((*name).clone(), op.clone())); next_line += 1;
             }
         }
@@ -109,7 +128,7 @@ pub fn attach(mut wasm: Vec<u8>, l: &Layout, version: u16, spanning: bool, lowpc
             let body = &l.entries[*name].1;
             program.begin_sequence(Some(Address::Constant(body.start)));
             for (off, op) in &l.instrs[*name] {
-                program.row().address_offset = off - body.start; program.row().file = file; program.row().line = next_line; program.generate_row();
+                program.row().address_offset = off - body.start; program.row().file = file_of(next_line).0; row_files.insert(next_line, file_of(next_line).1.to_string()); program.row().line = next_line; program.generate_row();
                 lines.insert(next_line, ((*name).clone(), op.clone())); next_line += 1;
             }
             program.end_sequence(body.end - body.start);
@@ -132,7 +151,12 @@ pub fn attach(mut wasm: Vec<u8>, l: &Layout, version: u16, spanning: bool, lowpc
         e.set(gimli::DW_AT_name, AttributeValue::String(name.as_bytes().to_vec()));
         e.set(gimli::DW_AT_low_pc, AttributeValue::Address(Address::Constant(start)));
         e.set(gimli::DW_AT_high_pc, AttributeValue::Udata(body.end - start));
+        // declared in one of the headers, by turns
+        let (df, dn) = if decl_files.len() % 2 == 0 { (hb, "b.h") } else { (hc, "c.h") };
+        e.set(gimli::DW_AT_decl_file, AttributeValue::FileIndex(Some(df)));
+        decl_files.insert((*name).clone(), dn.to_string());
     }
+    *FILE_EXPECT.lock().unwrap() = (row_files, decl_files);
     let mut sections = Sections::new(EndianVec::new(LittleEndian));
     dwarf.write(&mut sections).map_err(|e| anyhow!("gimli write: {e}"))?;
     let mut secs: Vec<(String, Vec<u8>)> = vec![];
@@ -144,10 +168,12 @@ pub fn attach(mut wasm: Vec<u8>, l: &Layout, version: u16, spanning: bool, lowpc
         let header_length = u32::from_le_bytes([line[8], line[9], line[10], line[11]]) as usize;
         let prog = 12 + header_length;
         let mut k = prog;
-        while k + 1 < line.len() { if line[k] == 0x04 && line[k + 1] == 0x02 { line[k + 1] = 0x00; k += 2; } else { k += 1; } }
+        while k + 1 < line.len() { if line[k] == 0x04 && line[k + 1] == placeholder_raw { line[k + 1] = 0x00; k += 2; } else { k += 1; } }
         let after = rows_of(&get_from(&secs, ".debug_line"), &get_from(&secs, ".debug_line_str"), &get_from(&secs, ".debug_str"), 4)?;
-        let same = before.len() == after.len() && before.iter().zip(after.iter()).all(|(b, a)| b.0 == a.0 && b.1 == a.1 && b.3 == a.3);
-        if !same || after.iter().any(|r| !r.3 && r.2 != 0) { bail!("could not synthesize DWARF 5 rows naming file 0 (patched program does not read back as intended)"); }
+        // same rows; exactly the rows of the placeholder file now name file 0, every other row names what it named
+        let same = before.len() == after.len() && before.iter().zip(after.iter()).all(|(b, a)| b.0 == a.0 && b.1 == a.1 && b.3 == a.3
+            && (b.3 || (if b.2 == placeholder_raw as u64 { a.2 == 0 } else { a.2 == b.2 })));
+        if !same || !after.iter().any(|r| !r.3 && r.2 == 0) { bail!("could not synthesize DWARF 5 rows naming file 0 (patched program does not read back as intended)"); }
     }
     for (n, d) in &secs { append_custom(&mut wasm, n, d); }
     Ok((wasm, lines))
@@ -155,14 +181,14 @@ pub fn attach(mut wasm: Vec<u8>, l: &Layout, version: u16, spanning: bool, lowpc
 
 fn get_from(secs: &[(String, Vec<u8>)], n: &str) -> Vec<u8> { secs.iter().find(|(k, _)| k == n).map(|(_, d)| d.clone()).unwrap_or_default() }
 
-struct Facts { subprograms: BTreeMap<String, Range<u64>>, rows: Vec<(u64, u64)>, ends: Vec<u64> }
+struct Facts { subprograms: BTreeMap<String, Range<u64>>, rows: Vec<(u64, u64)>, ends: Vec<u64>, row_file: BTreeMap<u64, String>, decl_file: BTreeMap<String, String> }
 
 fn read(l: &Layout) -> Result<Facts> {
     let load = |id: gimli::SectionId| -> std::result::Result<gimli::EndianSlice<'_, LittleEndian>, gimli::Error> {
         Ok(gimli::EndianSlice::new(l.customs.get(id.name()).map(|v| &v[..]).unwrap_or(&[]), LittleEndian))
     };
     let dwarf = gimli::Dwarf::load(load).map_err(|e| anyhow!("{e}"))?;
-    let mut f = Facts { subprograms: BTreeMap::new(), rows: vec![], ends: vec![] };
+    let mut f = Facts { subprograms: BTreeMap::new(), rows: vec![], ends: vec![], row_file: BTreeMap::new(), decl_file: BTreeMap::new() };
     let mut units = dwarf.units();
     while let Some(h) = units.next().map_err(|e| anyhow!("{e}"))? {
         let unit = dwarf.unit(h).map_err(|e| anyhow!("{e}"))?;
@@ -176,24 +202,36 @@ fn read(l: &Layout) -> Result<Facts> {
             };
             let low = match e.attr_value(gimli::DW_AT_low_pc).map_err(|e| anyhow!("{e}"))? { Some(gimli::AttributeValue::Addr(a)) => a, other => return Err(anyhow!("subprogram {name}: low_pc {:?}", other)) };
             let high = match e.attr_value(gimli::DW_AT_high_pc).map_err(|e| anyhow!("{e}"))? { Some(gimli::AttributeValue::Udata(n)) => low.wrapping_add(n), Some(gimli::AttributeValue::Addr(a)) => a, other => return Err(anyhow!("subprogram {name}: high_pc {:?}", other)) };
+            if let Some(gimli::AttributeValue::FileIndex(k)) = e.attr_value(gimli::DW_AT_decl_file).map_err(|e| anyhow!("{e}"))? {
+                f.decl_file.insert(name.clone(), file_name(&dwarf, &unit, k)?);
+            }
             f.subprograms.insert(name, low..high);
         }
         if let Some(program) = unit.line_program.clone() {
             let mut rows = program.rows();
             while let Some((_, row)) = rows.next_row().map_err(|e| anyhow!("{e}"))? {
-                if row.end_sequence() { f.ends.push(row.address()); } else { f.rows.push((row.line().map(|l| l.get()).unwrap_or(0), row.address())); }
+                if row.end_sequence() { f.ends.push(row.address()); } else { let line = row.line().map(|l| l.get()).unwrap_or(0); f.rows.push((line, row.address())); f.row_file.insert(line, file_name(&dwarf, &unit, row.file_index())?); }
             }
         }
     }
     Ok(f)
 }
 
+/// name of file `k` of the unit's line program (as a debugger resolves a file number)
+fn file_name<'a>(dwarf: &gimli::Dwarf<gimli::EndianSlice<'a, LittleEndian>>, unit: &gimli::Unit<gimli::EndianSlice<'a, LittleEndian>>, k: u64) -> Result<String> {
+    let program = unit.line_program.as_ref().ok_or_else(|| anyhow!("no line program"))?;
+    let file = program.header().file(k).ok_or_else(|| anyhow!("file number {k} is not in the file table of the output"))?;
+    let s = dwarf.attr_string(unit, file.path_name()).map_err(|e| anyhow!("{e}"))?;
+    Ok(s.to_string().map_err(|e| anyhow!("{e}"))?.to_string())
+}
+
 /// three local functions of very different sizes (walrus emits the largest first, so they move); `big` has a body of more than
 /// 128 bytes (two-byte size prefix); no unreachable code
 fn module_text(pad_small: usize, pad_big: usize) -> String {
+    let (extra_imports, extra_funcs) = *EXTRA_FUNCTIONS.lock().unwrap();
     let pad = |n: usize| (0..n).map(|k| format!("(call $i1 (i32.const {}))", k)).collect::<Vec<_>>().join(" ");
     format!(r#"(module
-      (import "env" "i0" (func $i0)) (import "env" "i1" (func $i1 (param i32)))
+      (import "env" "i0" (func $i0)) (import "env" "i1" (func $i1 (param i32))){}
       (func (export "small") (call $i0) {})
       (func (export "victim") (call $i1 (i32.const 99)) (call $i0))
       (func (export "mid") (param i32) (result i32) (local i32)
@@ -202,9 +240,14 @@ fn module_text(pad_small: usize, pad_big: usize) -> String {
         (if (local.get 0) (then (call $i0)) (else (call $i1 (i32.const 5))))
         (i32.sub (local.get 1) (i32.const 1000)))
       (func (export "dead") (result i32) (call $i0) (call $i1 (i32.const 7)) (return (i32.add (i32.const 20) (i32.const 22))) (call $i1 (i32.const 8)) (i32.const 9))
-      (func (export "big") {} (call $i0)){})"#, pad(pad_small), pad(pad_big),
-      if NOP_FIRST.load(std::sync::atomic::Ordering::SeqCst) { " (func (export \"nopfirst\") (nop) (call $i0) (call $i1 (i32.const 3)))" } else { "" })
+      (func (export "big") {} (call $i0)){}{})"#,
+      (0..extra_imports).map(|k| format!(" (import \"env\" \"x{k}\" (func))")).collect::<String>(), pad(pad_small), pad(pad_big),
+      if NOP_FIRST.load(std::sync::atomic::Ordering::SeqCst) { " (func (export \"nopfirst\") (nop) (call $i0) (call $i1 (i32.const 3)))" } else { "" },
+      (0..extra_funcs).map(|k| format!(" (func (export \"x{k}\") (call $i1 (i32.const {k})) (call $i0))")).collect::<String>())
 }
+/// more imported / defined functions, so that the function counts (defined alone, and defined + imported) sit on either side of 128,
+/// where the LEB128 function count in front of the first code entry grows to two bytes
+pub static EXTRA_FUNCTIONS: std::sync::Mutex<(usize, usize)> = std::sync::Mutex::new((0, 0));
 /// add a function whose FIRST instruction is a `nop` (walrus does not re-emit nops) and that declares no locals
 pub static NOP_FIRST: std::sync::atomic::AtomicBool = std::sync::atomic::AtomicBool::new(false);
 
@@ -283,6 +326,22 @@ fn run(version: u16, spanning: bool, lowpc_at_entry: bool, scenario: &str, pad_s
             other => return Ok(Some(format!("row of line {line} (`{op}` of {func}) designates address {addr}: {:?} starts there in {func}", other))),
         }
     }
+    // files: a row names the file it named, a subprogram is declared in the file it was declared in (by NAME: numbers may change)
+    let (want_row_file, want_decl) = FILE_EXPECT.lock().unwrap().clone();
+    for (line, _) in &facts.rows {
+        if removed_funcs.contains(&lines[line].0) || dead_lines.contains(line) { continue; }
+        match (want_row_file.get(line), facts.row_file.get(line)) {
+            (Some(w), Some(g)) if w == g => {}
+            (w, g) => return Ok(Some(format!("the row of line {line} named file {:?} in the input and names file {:?} in the output", w, g))),
+        }
+    }
+    for (func, w) in &want_decl {
+        if removed_funcs.contains(func) { continue; }
+        match facts.decl_file.get(func) {
+            Some(g) if g == w => {}
+            g => return Ok(Some(format!("subprogram {func} was declared in {w} (DW_AT_decl_file) and is declared in {:?} in the output", g))),
+        }
+    }
     Ok(None)
 }
 
@@ -290,8 +349,9 @@ pub fn dwarf(args: &[String]) -> Result<JValue> {
     if args.iter().any(|a| a == "loud") { } else { std::panic::set_hook(Box::new(|_| {})); }
     let mut failures = vec![];
     let mut checked = 0;
-    for (version, file0) in [(4u16, false), (5, false), (5, true)] {
+    for (version, file0, clang) in [(4u16, false, true), (4, false, false), (5, false, true), (5, true, true), (5, false, false), (5, true, false)] {
         ROWS_NAME_FILE0.store(file0, std::sync::atomic::Ordering::SeqCst);
+        CLANG_FILE_LAYOUT.store(clang, std::sync::atomic::Ordering::SeqCst);
         for spanning in [false, true] {
             for scenario in ["unchanged", "gc", "inserted"] {
                 for (ps, pb) in [(0usize, 45usize), (40, 45), (0, 3)] {
@@ -303,7 +363,7 @@ pub fn dwarf(args: &[String]) -> Result<JValue> {
                     let key = if spanning { Some("C10:line-sequence-spanning-reordered-functions-panics") } else { None };
                     let what = match r { Ok(Ok(None)) => continue, Ok(Ok(Some(w))) => w, Ok(Err(e)) => format!("error: {e:#}"),
                         Err(_) => "panic during parse / emit with DWARF".into() };
-                    let mut f = json!({"dwarf_version": version, "rows_name_file_0": file0, "one_sequence_spanning_all_functions": spanning, "scenario": scenario, "pads": [ps, pb], "what": what});
+                    let mut f = json!({"dwarf_version": version, "rows_name_file_0": file0, "file_1_is_a_copy_of_the_primary_file": clang, "one_sequence_spanning_all_functions": spanning, "scenario": scenario, "pads": [ps, pb], "what": what});
                     if let Some(k) = key { f["finding_key"] = json!(k); }
                     failures.push(f);
                 }
@@ -311,6 +371,21 @@ pub fn dwarf(args: &[String]) -> Result<JValue> {
         }
     }
     ROWS_NAME_FILE0.store(false, std::sync::atomic::Ordering::SeqCst);
+    CLANG_FILE_LAYOUT.store(true, std::sync::atomic::Ordering::SeqCst);
+    // function counts around 128 (5 defined functions and 2 imports are always there): defined 125 / all 130; defined 127 / all 129 and
+    // 130; defined 128 (127 after gc); defined 135
+    for (extra_imports, extra_funcs) in [(3usize, 120usize), (0, 122), (1, 122), (0, 123), (0, 130)] {
+        *EXTRA_FUNCTIONS.lock().unwrap() = (extra_imports, extra_funcs);
+        for version in [4u16, 5] {
+            for scenario in ["unchanged", "gc", "inserted"] {
+                checked += 1;
+                let r = std::panic::catch_unwind(|| run(version, false, false, scenario, 0, 45));
+                let what = match r { Ok(Ok(None)) => continue, Ok(Ok(Some(w))) => w, Ok(Err(e)) => format!("error: {e:#}"), Err(_) => "panic during parse / emit with DWARF".into() };
+                failures.push(json!({"dwarf_version": version, "extra_imported_functions": extra_imports, "extra_defined_functions": extra_funcs, "scenario": scenario, "what": what}));
+            }
+        }
+    }
+    *EXTRA_FUNCTIONS.lock().unwrap() = (0, 0);
     // F18 (repaired in /repo e8ad16a): a function whose first instruction is not re-emitted (a leading `nop`) and that declares no locals:
     // the anchor of its low_pc / of its line sequence is the edge of an instruction that is not in the instruction map; the function is
     // emitted, so its subprogram and its rows have to stay
@@ -329,6 +404,8 @@ pub fn dwarf(args: &[String]) -> Result<JValue> {
     }
     NOP_FIRST.store(false, std::sync::atomic::Ordering::SeqCst);
     let n_fail = failures.len();
+    // (failures that are not a recorded finding first: the list is cut)
+    failures.sort_by_key(|f| f.get("finding_key").is_some());
     failures.truncate(40);
     Ok(json!({"violated": !failures.is_empty(), "n_failures": n_fail, "cases_checked": checked, "failures": failures}))
 }
